@@ -18,7 +18,7 @@ func init() {
 	Register("C23", &Info{
 		Run:   runC23,
 		Quick: 2500, Thor: 250000,
-		Rule: "a world = one generated TLS 1.3-only QUIC ClientHello spec with quic_transport_parameters (drawn suites, groups incl. ones without a share to force HelloRetryRequest, ALPN, GREASE, transport parameters) on a UQUICConn, paired with the repository's or the std library's QUIC server and driven through Start / HandleData / NextEvent by a pump task that delivers CRYPTO data in drawn chunk sizes; faults: context cancelled at a drawn scheduler step, Close at a drawn pump iteration, server-side failure (no common ALPN), unbuildable ClientHello (PSK parrot without session, Config.Rand failing at its n-th read, unsupported curve in a key share); oracle: fault-free worlds complete on both sides; the ClientHello (first Initial-level CRYPTO data) parses under the strict grammar with an empty legacy session id; client events: per level the write secret precedes the read secret, the application read secret comes only after HandshakeDone, peer transport parameters are delivered exactly once and equal what the server set; Start, HandleData and Close return in every world (a world in which a task is blocked forever is the violation); non-trivial = >=1 HandleData (failure stratum: the injected fault fired); distinct = (spec, server, chunking, fault)",
+		Rule: "a world = one generated TLS 1.3-only QUIC ClientHello spec with quic_transport_parameters (drawn suites, groups incl. ones without a share to force HelloRetryRequest, ALPN, GREASE, transport parameters) on a UQUICConn, paired with the repository's or the std library's QUIC server and driven through Start / HandleData / NextEvent by a pump task that delivers CRYPTO data in drawn chunk sizes and serves one event per step from the client or the server in a drawn interleaving (draining, eager: the server's answer is handed to HandleData before NextEvent has reported QUICNoEvent, mixed per step); after a Start that failed, HandleData and SetTransportParameters are called too; faults: context cancelled at a drawn scheduler step, Close at a drawn pump iteration, server-side failure (no common ALPN), unbuildable ClientHello (PSK parrot without session, Config.Rand failing at its n-th read, unsupported curve in a key share); oracle: fault-free worlds complete on both sides; the ClientHello (first Initial-level CRYPTO data) parses under the strict grammar with an empty legacy session id; client events: per level the write secret precedes the read secret, the application read secret comes only after HandshakeDone, peer transport parameters are delivered exactly once and equal what the server set; Start, HandleData and Close return in every world (a world in which a task is blocked forever is the violation); non-trivial = >=1 HandleData (failure stratum: the injected fault fired); distinct = (spec, server, chunking, fault)",
 		Assumptions: []string{"the QUIC layer (packet protection, CRYPTO frames, CONNECTION_CLOSE) is the harness's pump: only the TLS-QUIC interface of RFC 9001 is exercised",
 			"no compatibility CCS can exist in QUIC (there is no record layer); the clause is covered by checking that only handshake bytes appear in CRYPTO data"},
 		Real: []string{"utls UQUICConn / UConn handshake from /repo", "utls QUICServer or std crypto/tls QUICServer"},
@@ -132,13 +132,16 @@ func runC23(c *Ctx) {
 	peer := ch.Pick(2, "peer")
 	fault := []string{"none", "none", "none", "cancel", "close", "server-fail", "unbuildable-psk", "unbuildable-rand", "unbuildable-curve"}[ch.Pick(9, "fault")]
 	cancelAt := ch.Range(0, 400, "cancel-step")
-	closeAt := ch.Range(0, 12, "close-iter")
+	closeAt := ch.Range(0, 30, "close-iter")
+	pumpMode := ch.Pick(3, "pump-mode")
+	pumpOrder := ch.U64("pump-order")
+	afterFailedStart := ch.Pick(4, "after-failed-start")
 	chunk := []int{0, 1, 7, 100, 1000}[ch.Pick(5, "chunk")]
 	forceHRR := ch.Bool(30, "hrr") && strings.Contains(desc, "CurveP384") && !strings.Contains(desc, "groups=[CurveP384")
 	serverTP := []byte("server-transport-params-" + fmt.Sprint(ch.Pick(1000, "stp")))
-	w := c.NewWorld(simrt.Config{LockYield: ch.Bool(50, "lockyield"), PreemptPct: 10 + 20*ch.Pick(3, "preempt")})
+	w := c.NewWorld(simrt.Config{LockYield: ch.Bool(50, "lockyield"), UnlockYield: ch.Bool(25, "unlockyield"), PreemptPct: 10 + 20*ch.Pick(3, "preempt")})
 	ResetStamp()
-	c.R.Class = fmt.Sprintf("%s peer=%s fault=%s chunk=%d hrr=%v", desc, peerName(peer), fault, chunk, forceHRR)
+	c.R.Class = fmt.Sprintf("%s peer=%s fault=%s chunk=%d hrr=%v pump=%d", desc, peerName(peer), fault, chunk, forceHRR, pumpMode)
 
 	salpn := []string{"h3", "hq-interop", "h3-29"}
 	if fault == "server-fail" {
@@ -204,6 +207,15 @@ func runC23(c *Ctx) {
 		startErr = cq.Start(ctx)
 		startReturned = true
 		if startErr != nil {
+			// the other entry points must return too on a connection whose handshake never started
+			if afterFailedStart&1 != 0 {
+				hdErr = cq.HandleData(tls.QUICEncryptionLevelInitial, []byte{2, 0, 0, 1, 0})
+				c.Probe("handledata-after-failed-start")
+			}
+			if afterFailedStart&2 != 0 {
+				cq.SetTransportParameters(scid[:])
+				c.Probe("settransportparameters-after-failed-start")
+			}
 			closeErr = cq.Close()
 			closeReturned = true
 			return
@@ -228,56 +240,73 @@ func runC23(c *Ctx) {
 			}
 			return nil
 		}
-		for iter := 0; iter < 60; iter++ {
-			simrt.Yield()
+		// the event pump: one event per step, from the client or from the server; which side is served
+		// first when both have something pending is the interleaving under test (draining: the client's
+		// events first; eager: the server's answer is fed back before the client's NextEvent has
+		// reported QUICNoEvent; mixed: drawn per step)
+		stepClient := func() bool {
+			e := cq.NextEvent()
+			if e.Kind == tls.QUICNoEvent {
+				return false
+			}
+			d := append([]byte(nil), e.Data...)
+			cevents = append(cevents, evt{int(e.Kind), int(e.Level), d})
+			switch e.Kind {
+			case tls.QUICWriteData:
+				if e.Level == tls.QUICEncryptionLevelInitial {
+					firstFlight = append(firstFlight, d...)
+				}
+				if !srvFailed {
+					if err := deliver(srv.HandleData, int(e.Level), d); err != nil {
+						srvFailed = true
+					}
+				}
+			case tls.QUICHandshakeDone:
+				clientDone = true
+			}
+			return true
+		}
+		stepServer := func() bool {
+			if srvFailed {
+				return false
+			}
+			k, lvl, d := srv.Next()
+			if k == qNone {
+				return false
+			}
+			if k == qWriteData {
+				if lvl == 0 {
+					serverFirst = append(serverFirst, d...)
+				}
+				handleCalls++
+				hdErr = deliver(func(l int, b []byte) error { return cq.HandleData(tls.QUICEncryptionLevel(l), b) }, lvl, d)
+			}
+			return true
+		}
+		idle := 0
+		for iter := 0; iter < 800 && hdErr == nil; iter++ {
 			if fault == "close" && iter == closeAt {
 				closeErr = cq.Close()
 				closeReturned = true
 				c.Fault("close", 1)
 				return
 			}
-			progress := false
-			for {
-				e := cq.NextEvent()
-				if e.Kind == tls.QUICNoEvent {
-					break
-				}
-				progress = true
-				d := append([]byte(nil), e.Data...)
-				cevents = append(cevents, evt{int(e.Kind), int(e.Level), d})
-				switch e.Kind {
-				case tls.QUICWriteData:
-					if e.Level == tls.QUICEncryptionLevelInitial {
-						firstFlight = append(firstFlight, d...)
-					}
-					if !srvFailed {
-						if err := deliver(srv.HandleData, int(e.Level), d); err != nil {
-							srvFailed = true
-						}
-					}
-				case tls.QUICHandshakeDone:
-					clientDone = true
-				}
+			clientFirst := pumpMode == 0 || (pumpMode == 2 && pumpOrder>>(uint(iter)%64)&1 == 0)
+			var did bool
+			if clientFirst {
+				did = stepClient() || stepServer()
+			} else {
+				did = stepServer() || stepClient()
 			}
-			for !srvFailed {
-				k, lvl, d := srv.Next()
-				if k == qNone {
-					break
-				}
-				progress = true
-				if k == qWriteData {
-					if lvl == 0 {
-						serverFirst = append(serverFirst, d...)
-					}
-					handleCalls++
-					if hdErr = deliver(func(l int, b []byte) error { return cq.HandleData(tls.QUICEncryptionLevel(l), b) }, lvl, d); hdErr != nil {
-						break
-					}
-				}
+			if did {
+				idle = 0
+				continue
 			}
-			if hdErr != nil || (clientDone && srv.Done()) || !progress {
+			idle++
+			if idle >= 2 {
 				break
 			}
+			simrt.Yield()
 		}
 		closeErr = cq.Close()
 		closeReturned = true
